@@ -62,7 +62,9 @@ QueryOk(i, o) ==
   IF Has(i, "nest")
     THEN \* deep nesting: "(" x n a ")" x n   or   "NOT " x n a
       /\ Chk("query.total", o.res \in {"ok", "InvalidQuery"})
-      /\ Chk("query.depth", (o.res = "ok") = (i.nest <= 128))
+      \* where exactly the parser draws the line (128 levels as built) is its own business: drift only.  What C32 needs is
+      \* covered by query.total: however deep, the answer is ok or InvalidQuery, never a crash or a hang
+      /\ DChk("query.depth", (o.res = "ok") = (i.nest <= 128))
       /\ (o.res = "ok" =>
             Chk("query.eval", \A k \in 1..Len(i.docs) :
                   o.matches[k] = (IF i.kind = "not" /\ i.nest % 2 = 1 THEN "a" \notin DocSet(i.docs[k]) ELSE "a" \in DocSet(i.docs[k]))))
